@@ -77,6 +77,7 @@ def run_gcd_one(ctx, prog, res, case, utz_class):
             fm.append(("variant u + v decreases", u + vv < up + vp))
         return fm
 
+    links = []     # (u0, v0, path constraints, utz) at every first arrival at the loop head
     ex = new_executor(ctx, prog, unwind=6)
     ex.cuts["gcd_special"] = Cut(["u", "v"], [], invariant, mode="inductive",
                                  assume_after=(lambda nv: T.I(nv["v"]) == 0) if utz_class > 0 else None)
@@ -90,6 +91,7 @@ def run_gcd_one(ctx, prog, res, case, utz_class):
             st_.defs.append(G0 == gcd(T.I(u0), T.I(v0)))
             st_.defs.append(z3.And(G0 >= 1, G0 <= T.I(v0)))        # gcd(a, b) divides b > 0
             st_.tags["G0_defined"] = (u0, v0)
+            links.append((u0, v0, list(st_.defs) + list(st_.pc), ex.local_by_name(st_, fr, "utz").t))
             st_.tags["utz"] = ex.local_by_name(st_, fr, "utz").t
             # everything known at loop entry (u0 odd, ranges) stays available after the havoc
             st_.mark_inputs_keep = True
@@ -136,6 +138,32 @@ def run_gcd_one(ctx, prog, res, case, utz_class):
         inst = [gcd(pre["u"], z3.IntVal(0)) == pre["u"]]
         goal = T.I(o.value.t) == G0 * (1 << min(int(utz), e))
         res.vc(ctx, name, o.state.constraints() + inst, goal, {"c": numer.t}, info)
+    # link between the loop's start state and the function's inputs: gcd(u0, v0) = gcd(odd part of |c|, 5^e) and utz = the number of
+    # trailing zero bits of |c| -- without it the inductive argument says nothing about the arguments.  Ground instances of three gcd
+    # facts for exactly these terms: symmetry, one Euclid step (gcd(N, V) = gcd(N mod V, V), the spec's own quotient/remainder pair),
+    # gcd(x, x) = x; anything else the code does to set the loop up is not provable and ends as a counterexample candidate.
+    N = 2 * modd + 1
+    V = 5 ** e
+    qq, rr = z3.Int("link_q"), z3.Int("link_r")
+    facts = [gcd(N, z3.IntVal(V)) == gcd(z3.IntVal(V), N), N == qq * V + rr, rr >= 0, rr < V, qq >= 0,
+             gcd(N, z3.IntVal(V)) == gcd(rr, z3.IntVal(V)), gcd(rr, z3.IntVal(V)) == gcd(z3.IntVal(V), rr)]
+    if not links:
+        res.d["inconclusive"].append("%s: the loop head of gcd_special was never reached (no base case)" % case["id"])
+    for li, (u0, v0, cons, utz0) in enumerate(links):
+        goal = z3.And(gcd(T.I(u0), T.I(v0)) == gcd(N, z3.IntVal(V)), T.I(utz0) == utz_class)
+        name = "%s|utz=%d|link%d: gcd(u0, v0) = gcd(odd|c|, 5^e), utz = tz(|c|)" % (case["id"], utz_class, li)
+        r = res.vc(ctx, name, cons + facts, goal, {"c": numer.t}, info)
+        if r.status == "sat":
+            # gcd is uninterpreted here, so the model's c need not be a real counterexample: ask for further models (different residues
+            # of c) and keep them all as candidates; each is replayed against the native build and only reproducing ones are reported
+            import random
+            rng = random.Random(ctx.seed + e * 131 + utz_class)
+            for _ in range(24):
+                m_ = rng.choice([5, 25, 125])
+                extra = [z3.If(numer.t >= 0, numer.t, -numer.t) / (1 << utz_class) % m_ == 0, z3.If(numer.t >= 0, numer.t, -numer.t) >= rng.randint(1, MAXC >> 3)]
+                r2 = check_vc(cons + facts + extra, goal, 5000, name)
+                if r2.status == "sat":
+                    res.d["violations"].append({"vc": name + "|alt", "inputs": {"c": model_int(r2.model, numer.t)}, "info": info})
     if len(res.d["samples"]) < 2:
         res.sample({"vc": case["id"], "utz": utz_class, "paths": len(outs), "preservation_paths_closed": n_closed, "cut_log_tail": ex.cut_log[-3:]})
     if n_closed == 0 and utz_class == 0:
@@ -294,7 +322,9 @@ def cosim(ctx, native):
         mine = ("PAIR", int(outs[0].value.fields[0].t), int(outs[0].value.fields[1].t))
         obs = parse_native(native["dev"].ask("5 ratio %s" % fmt_dec(c, p)))
         g = math.gcd(abs(c), 10 ** p)
-        if obs != mine or obs != ("PAIR", c // g, 10 ** p // g):
-            raise RuntimeError("MIR interpreter %r vs native %r vs math for %s" % (mine, obs, (c, p)))
+        if obs != ("PAIR", c // g, 10 ** p // g):
+            raise NativeViolation("5 ratio %s" % fmt_dec(c, p), obs, ("PAIR", c // g, 10 ** p // g))
+        if obs != mine:
+            raise RuntimeError("MIR interpreter %r vs native %r for %s" % (mine, obs, (c, p)))
         n += 1
     return n
